@@ -172,7 +172,25 @@ def frames_alphabet():
     F["opt-past-end"] = bytes([0x21, 0x01, 0x73, 0xB5, 0x61])      # Uri-Path announcing 5 bytes, 1 present
     F["bad-utf8"] = bytes([0x21, 0x01, 0x74, 0xB1, 0xFF])          # Uri-Path that is not UTF-8
     F["ping-critical"] = rc.encode_tcp(PING, b"\x35", [(9, b"")], b"")
+    F["pong-critical"] = rc.encode_tcp(PONG, b"\x36", [(9, b"")], b"")
+    F["pong-elective"] = rc.encode_tcp(PONG, b"\x37", [(2, b"")], b"")     # Custody: elective, ignored
+    F["release-critical"] = rc.encode_tcp(RELEASE, b"", [(7, b"x")], b"")
+    F["abort-critical"] = rc.encode_tcp(ABORT, b"", [(7, b"x")], b"")
+    # the last frame that still fits and the first that does not (the limit counts the whole frame)
+    for tkl, tag in ((0, "a"), (8, "b")):
+        for total in (MAXSIZE, MAXSIZE + 1):
+            F["edge%d%s" % (total - MAXSIZE, tag)] = sized_frame(total, tkl)
     return F
+
+
+def sized_frame(total, tkl, first=0x60):
+    """A request frame for /r of exactly `total` bytes with a token of tkl bytes."""
+    tok = bytes([first + i for i in range(tkl)])
+    for pl in range(max(0, total - 16 - tkl), total):
+        f = rc.encode_tcp(1, tok, [(11, b"r")], b"E" * pl)
+        if len(f) == total:
+            return f
+    raise AssertionError("no frame of %d bytes" % total)
 
 
 def expectation(names, F, leading_own_csm=True):
@@ -217,6 +235,8 @@ def expectation(names, F, leading_own_csm=True):
                 if any(n % 2 == 1 for n, v in opts):
                     writes.append((ABORT, b""))
                     closed = True
+                    if code in (RELEASE, ABORT):
+                        errors = None      # the peer is leaving anyway: which network error the pending requests see is open
                     break
                 if code == PING:
                     writes.append((PONG, tok))
@@ -274,12 +294,12 @@ def cut(stream, cuts):
     return [p for p in parts if p] or [b""]
 
 
-def run_sequence(res, names, F, tier):
+def run_sequence(res, names, F, tier, only=None):
     stream = b"".join(F[n] for n in names)
     want = expectation(names, F)
     ref_outcome = None
     case = {"frames": list(names)}
-    for cuts in chunkings(stream, tier):
+    for cuts in (only if only is not None else chunkings(stream, tier)):
         h = Harness(True)
         try:
             h.feed(cut(stream, cuts))
@@ -299,6 +319,8 @@ def run_sequence(res, names, F, tier):
             wsig = [(c, t) for c, t in want[1] if c >= 224]
             wresp = [(c, t) for c, t in want[1] if c < 224]
             errors = [e for e in errors if e is not None]     # (connection_lost(None) after a close reports None)
+            if want[3] is None:
+                errors = None
             got = (disp, sig, closed, errors)
             # a repeated token supersedes the request still in its handler: its response may legitimately be missing
             it = iter(wresp)
@@ -328,8 +350,11 @@ def run_sequence(res, names, F, tier):
 
 def bad_frame(names):
     for n in names:
-        if n in ("csm-critical", "big", "tkl9", "bad-nibble", "opt-past-end", "bad-utf8", "sig-unknown", "empty", "release", "abort", "ping-critical"):
+        if n in ("csm-critical", "big", "tkl9", "bad-nibble", "opt-past-end", "bad-utf8", "sig-unknown", "empty", "release", "abort", "ping-critical",
+                 "pong-critical", "release-critical", "abort-critical", "edge1a", "edge1b"):
             return n
+        if n.startswith("sz"):
+            return "size-boundary"
     return "plain"
 
 
@@ -411,6 +436,17 @@ def serialisation(res):
     res.outcomes.add("ser")
 
 
+def size_boundary(res, tier):
+    """Every frame size around the local limit, for every token length: dispatched iff the whole frame fits."""
+    F = frames_alphabet()
+    for tkl in range(0, 9):
+        for total in range(MAXSIZE - 2, MAXSIZE + 16):
+            name = "sz%d-%d" % (total, tkl)
+            F2 = dict(F)
+            F2[name] = sized_frame(total, tkl)
+            run_sequence(res, ("csm", name, "ping"), F2, "quick", only=[[], [3], [5], [MAXSIZE // 2], list(range(1, total, 97))])
+
+
 def job(arg):
     kind, items, tier = arg
     res = Result()
@@ -422,6 +458,7 @@ def job(arg):
     elif kind == "client":
         client_role(res)
         serialisation(res)
+        size_boundary(res, tier)
     return res
 
 
@@ -454,7 +491,12 @@ def run(tier, seed, jobs):
 def replay(case, scenario, seed):
     res = Result()
     if "frames" in case:
-        run_sequence(res, tuple(case["frames"]), frames_alphabet(), "quick")
+        F = frames_alphabet()
+        for nm in case["frames"]:
+            if nm.startswith("sz"):
+                total, tkl = nm[2:].split("-")
+                F[nm] = sized_frame(int(total), int(tkl))
+        run_sequence(res, tuple(case["frames"]), F, "quick")
     elif "client" in case:
         client_role(res)
     else:
